@@ -1322,8 +1322,7 @@ def consecutive_rank(repo, col, R):
             f"sorted order; for parents such as [-1, 0, 0, 2, 1] parents are wired to another parent's branch point", node=cf.node)
 
 
-def _levels(repo, col):
-    R = "R-C01-levels"
+def _levels(repo, col, R="R-C01-levels"):
     CUF = "jaxley/utils/cell_utils.py"
     # compute_levels: level(root) = 0, level(child) = level(parent) + 1
     fi = repo.func(CUF, "compute_levels")
